@@ -931,24 +931,14 @@ func c33Baseline(stor *teststorage.TestStorage, it c33Item) string {
 	return c33CanonSorted(c33Run(eng, stor, it.Q, it.M))
 }
 
-var c33T [4]atomic.Int64
-
 func c33RunPair(r *vx.Run, stor *teststorage.TestStorage, a, b c33Item, base string) {
-	t0 := time.Now()
 	c33Clean()
-	t1 := time.Now()
 	old := debug.SetGCPercent(-1)
 	eng := ag_NewEngine(false, 50000000)
-	t2 := time.Now()
 	oa := c33Run(eng, stor, a.Q, a.M)
 	ob := c33Run(eng, stor, b.Q, b.M)
-	t3 := time.Now()
 	eng.Close()
 	debug.SetGCPercent(old)
-	c33T[0].Add(int64(t1.Sub(t0)))
-	c33T[1].Add(int64(t2.Sub(t1)))
-	c33T[2].Add(int64(t3.Sub(t2)))
-	c33T[3].Add(int64(time.Since(t3)))
 	rp := c33Replay{Kind: "pair", A: &a, B: &b}
 	c33CheckOne(r, a.Q, a.M, 0, oa)
 	c33CheckOne(r, b.Q, b.M, 0, ob)
@@ -997,7 +987,6 @@ outer:
 			pairs++
 		}
 	}
-	r.Set("pair_phase_ms", fmt.Sprintf("clean=%d newengine=%d queries=%d close=%d", c33T[0].Load()/1e6, c33T[1].Load()/1e6, c33T[2].Load()/1e6, c33T[3].Load()/1e6))
 	r.Count("pairs_checked", pairs)
 	r.Count("evaluations", 2*pairs)
 	r.Set("pair_pool_size", len(items))
